@@ -315,6 +315,10 @@ def junk_other(A, uplo, tc, diag=False):
     return J
 
 
+KEYCAP = 4
+_REPORTED = {}
+
+
 class Ctx(object):
     def __init__(self, case):
         self.case = case
@@ -324,6 +328,7 @@ class Ctx(object):
         self.keys = {}
         self.maxerr = {}
         self.outcomes = {}
+        self.suppressed = 0
 
     def count(self, label, nontrivial=True):
         self.n += 1
@@ -332,11 +337,17 @@ class Ctx(object):
         self.outcomes[label] = self.outcomes.get(label, 0) + 1
 
     def bad(self, key, msg, sub=None):
+        """record a violation.  The number of *entries* per key is capped per worker process (the engine stops a
+        worker after 200 entries); every further occurrence is still counted in extra['suppressed_violation_entries']."""
         key = 'C18:' + key
         c = self.keys.get(key, 0)
         self.keys[key] = c + 1
-        if c < 2:
+        g = _REPORTED.get(key, 0)
+        if c < 1 and g < KEYCAP:
+            _REPORTED[key] = g + 1
             self.viol.append({'key': key, 'msg': msg, 'sub': sub})
+        else:
+            self.suppressed += 1
 
     def err(self, cls, e, key, what, sub=None, tol=TOL):
         """record a relative error of tolerance class `cls`; violation if it exceeds tol"""
@@ -401,7 +412,7 @@ class Ctx(object):
 
     def result(self):
         return {'n': self.n, 'nontrivial': self.nontrivial, 'viol': self.viol, 'maxerr': self.maxerr,
-                'outcomes': self.outcomes}
+                'outcomes': self.outcomes, 'extra': {'suppressed_violation_entries': self.suppressed}}
 
 
 def lays1(tier):
@@ -1679,6 +1690,13 @@ def fam_gv(case, c):
             why = 'eigenvalue 2 of the 1 x 1 pencil (2, 1) stored at offset 1 was not returned in W[1] (W = %r)' % (list(W.M),)
         except Exception as e:
             good, why = False, 'raised %s(%s)' % (type(e).__name__, e)
+            try:        # without ldB: shows where the offset keywords really go
+                W2 = Arr('d', 1, 1, None, (0, 1))
+                fn(A.M, B.M, W2.M, n=1, ldA=1, offsetA=1, offsetB=1, offsetW=1)
+                why += '; and %s(A, B, W, n=1, ldA=1, offsetA=1, offsetB=1, offsetW=1) leaves W = %r (sentinels %r): ' \
+                       'the eigenvalue went to W[0], i.e. offsetW was not applied' % (name, list(W2.M), [_sent('d', k) for k in range(W2.L)])
+            except Exception as e2:
+                why += '; without ldB: %s(%s)' % (type(e2).__name__, e2)
         c.count(name + (':ok' if good else ':keywords-broken'))
         if not good:
             c.bad(name + ':documented-keywords-misassigned:ldB/offsetA/offsetB/offsetW',
@@ -2055,9 +2073,6 @@ def fam_gschur(case, c):
                     S, T = A.mat(), B.mat()
                     if not c.err('struct', R.is_upper(T, sb), 'gges:T-not-upper-triangular', 'T is not upper triangular', sub2):
                         continue
-                    if any((x.real if tc == 'z' else x) < -TOL * sb or (tc == 'z' and abs(x.imag) > TOL * sb)
-                           for x in [T.a[i][i] for i in range(n)]):
-                        c.bad('gges:T-diagonal-not-nonnegative', 'diag(T) = %r' % ([T.a[i][i] for i in range(n)],), sub2)
                     if tc == 'z':
                         if not c.err('struct', R.is_upper(S, sa), 'gges:S-not-upper-triangular', 'S is not upper triangular', sub2):
                             continue
@@ -2067,6 +2082,13 @@ def fam_gschur(case, c):
                         if blocks is None:
                             c.bad('gges:S-not-quasi-triangular', 'S is not upper quasi-triangular', sub2)
                             continue
+                    # documented: diag(T) is (real and) nonnegative
+                    for i, size in blocks:
+                        for kk in range(i, i + size):
+                            x = T.a[kk][kk]
+                            if (x.real if tc == 'z' else x) < -TOL * sb or (tc == 'z' and abs(x.imag) > TOL * sb):
+                                c.bad('gges:T-diagonal-not-nonnegative' + (':ordered-2x2-block' if (selname and size == 2) else ''),
+                                      'diag(T) = %r' % ([T.a[t][t] for t in range(n)],), sub2)
                     if give_ab:
                         av, bv = a.vec(), b.vec()
                         for i, size in blocks:
@@ -2396,6 +2418,35 @@ def cases_none(tier, seed):
 
 
 CASEGENS.append(cases_none)
+
+
+# ================================================================================= coverage self-check
+COVERED = ['gbsv', 'gbtrf', 'gbtrs', 'gees', 'gelqf', 'gels', 'geqp3', 'geqrf', 'gesdd', 'gesv', 'gesvd', 'getrf', 'getri',
+           'getrs', 'gges', 'gtsv', 'gttrf', 'gttrs', 'heev', 'heevd', 'heevr', 'heevx', 'hegv', 'hesv', 'hetrf', 'hetri',
+           'hetrs', 'lacpy', 'larfg', 'larfx', 'orglq', 'orgqr', 'ormlq', 'ormqr', 'pbsv', 'pbtrf', 'pbtrs', 'posv', 'potrf',
+           'potri', 'potrs', 'ptsv', 'pttrf', 'pttrs', 'syev', 'syevd', 'syevr', 'syevx', 'sygv', 'sysv', 'sytrf', 'sytri',
+           'sytrs', 'tbtrs', 'trtri', 'trtrs', 'unglq', 'ungqr', 'unmlq', 'unmqr']
+
+
+@family('meta')
+def fam_meta(case, c):
+    """every public callable of cvxopt.lapack is enumerated by some family above"""
+    from cvxopt import lapack
+    names = [k for k in dir(lapack) if not k.startswith('_') and callable(getattr(lapack, k))]
+    c.count('wrappers-exported', False)
+    for k in names:
+        if k not in COVERED:
+            c.bad('uncovered-wrapper:' + k, 'cvxopt.lapack.%s is exported but not enumerated by this check' % k)
+    for k in COVERED:
+        if k not in names:
+            c.bad('missing-wrapper:' + k, 'cvxopt.lapack.%s is documented but not exported' % k)
+
+
+def cases_meta(tier, seed):
+    yield {'f': 'meta', 'seed': seed}
+
+
+CASEGENS.append(cases_meta)
 
 #@@FAMILIES@@
 
